@@ -6,12 +6,13 @@
 
 //! This module parses eBPF assembly language source code.
 
-use combine::parser::char::{alpha_num, char, digit, hex_digit, spaces, string};
+use combine::parser::char::{alpha_num, char, digit, hex_digit, letter, spaces, string};
 use combine::stream::position::{self};
 #[cfg(feature = "std")]
 use combine::EasyParser;
 use combine::{
-    attempt, between, eof, many, many1, one_of, optional, sep_by, ParseError, Parser, Stream,
+    attempt, between, eof, many, many1, not_followed_by, one_of, optional, sep_by, ParseError,
+    Parser, Stream,
 };
 
 use crate::lib::*;
@@ -67,7 +68,9 @@ where
     I: Stream<Token = char>,
     I::Error: ParseError<I::Token, I::Range, I::Position>,
 {
-    char('r')
+    // An 'r' followed by a letter starts an instruction name (e.g. `rsh64` right after an
+    // instruction without operands such as `exit`), not a register: do not consume it.
+    attempt(char('r').skip(not_followed_by(letter())))
         .with(many1(digit()))
         .map(|x: String| x.parse::<i64>().unwrap())
 }
